@@ -221,7 +221,12 @@ impl Literal {
                 false
             }
             (Literal::Range(min, max, num_ty), Type::Array(elem_ty, size)) => {
-                elem_ty.as_ref() == &Type::Unsigned(*num_ty) && max - min == *size as u64
+                // `max - min` must not overflow and the last element `max - 1` must fit the
+                // element type (`as_bits` would silently wrap it)
+                elem_ty.as_ref() == &Type::Unsigned(*num_ty)
+                    && min <= max
+                    && (min == max || num_ty.max().is_some_and(|m| max - 1 <= m))
+                    && max - min == *size as u64
             }
             _ => false,
         }
